@@ -55,6 +55,9 @@ type FeedObs struct {
 	Evs      []Ev    `json:"evs"`
 	Done     bool    `json:"done"`
 	AfterEnd int     `json:"afterend"` // callbacks observed after the done channel closed
+	Stopped  bool    `json:"stopped"`  // the terminator was closed by a StopFeed operation
+	StopAt   int     `json:"stopat"`   // callbacks (of any kind) made when the terminator was closed
+	Total    int     `json:"total"`    // callbacks made in all
 	CkptCas  *CasRef `json:"ckptcas"`  // checkpoint document's last_seq after the run (0 = none)
 }
 
@@ -68,15 +71,16 @@ type liveFeed struct {
 }
 
 type concRunner struct {
-	env    *seqEnv
-	ctl    *Controller
-	tr     *Trace
-	x      *Ctx
-	suffix string
-	lines  []*SeqStep
-	feeds  []*liveFeed
-	byID   map[string]*liveFeed
-	mu     sync.Mutex
+	pendingStop map[string]*liveFeed // feeds whose terminator was closed and whose queue has not been seen closed yet
+	env         *seqEnv
+	ctl         *Controller
+	tr          *Trace
+	x           *Ctx
+	suffix      string
+	lines       []*SeqStep
+	feeds       []*liveFeed
+	byID        map[string]*liveFeed
+	mu          sync.Mutex
 }
 
 type opRun struct {
@@ -190,7 +194,7 @@ func runConcCase(env *seqEnv, trNo int, cc *ConcCase) (*Trace, error) {
 			"subdoc.read.done": true, "wuwx.read.done": true, "feed.backfill.done": true, "feed.registered": true,
 			"feed.deliver": true, "feed.term": true, "feed.exit": true}
 	}
-	cr := &concRunner{env: env, ctl: ctl, tr: tr, x: x, suffix: suffix, byID: map[string]*liveFeed{}}
+	cr := &concRunner{env: env, ctl: ctl, tr: tr, x: x, suffix: suffix, byID: map[string]*liveFeed{}, pendingStop: map[string]*liveFeed{}}
 	startCas := map[string]uint64{}
 	startRefs := map[string]*CasRef{}
 	for _, c := range collNames {
@@ -282,6 +286,9 @@ func runConcCase(env *seqEnv, trNo int, cc *ConcCase) (*Trace, error) {
 					lf := cr.byID[op.Key]
 					cr.mu.Unlock()
 					if lf != nil {
+						cr.mu.Lock()
+						cr.pendingStop[op.Key] = lf
+						cr.mu.Unlock()
 						func() {
 							defer func() { _ = recover() }()
 							close(lf.term)
@@ -375,6 +382,26 @@ func runConcCase(env *seqEnv, trNo int, cc *ConcCase) (*Trace, error) {
 		}
 		if !ok {
 			return fmt.Errorf("process %s blocked (watchdog) after release", name)
+		}
+		// a closed terminator takes effect when the feed's terminator goroutine has closed the queue: let it
+		cr.mu.Lock()
+		pend := map[string]*liveFeed{}
+		for id, lf := range cr.pendingStop {
+			pend[id] = lf
+			delete(cr.pendingStop, id)
+		}
+		cr.mu.Unlock()
+		for id, lf := range pend {
+			if _, _, ok := ctl.WaitParked("term:"+id, 100*time.Millisecond); ok {
+				ctl.Step("term:" + id)
+			}
+			lf.mu.Lock()
+			n := len(lf.raw)
+			lf.mu.Unlock()
+			cr.mu.Lock()
+			lf.obs.Stopped = true
+			lf.obs.StopAt = n
+			cr.mu.Unlock()
 		}
 		return afterStep()
 	}
@@ -470,6 +497,7 @@ func runConcCase(env *seqEnv, trNo int, cc *ConcCase) (*Trace, error) {
 		o := *lf.obs
 		cr.mu.Unlock()
 		lf.mu.Lock()
+		o.Total = len(lf.raw)
 		for j := range lf.raw {
 			k := string(lf.raw[j].Key)
 			if strings.HasPrefix(k, "~") || (k != "" && !strings.HasSuffix(k, suffix)) {
